@@ -171,6 +171,62 @@ Definition fuse_predecessors (c : optcfg) (d : dag) (o : opnode) : dag :=
 Definition optimize (c : optcfg) (order : list nat) (d : dag) : dag :=
   fold_left (fun d n => match find_op d n with Some o => fuse_predecessors c d o | None => d end) order d.
 
+(* ---- legacy simple_optimize_dag (map fusion of single chains op1 -> array -> op2) --------- *)
+Definition can_fuse_primitive_ops (p1 p2 : primop) : bool :=
+  is_fuse_candidate p1 && is_fuse_candidate p2
+  && forallb (fun n => Nat.eqb n 1) (nib p2)           (* the successor reads single blocks *)
+  && Nat.eqb (ntasks p1) (ntasks p2).
+
+(* number of out-edges of an array node, counting multi-edges *)
+Definition out_degree_multi (d : dag) (a : name) : nat :=
+  sumn (map (fun o => length (filter (Nat.eqb a) (ins o))) (dops d)).
+
+Definition simple_can_fuse (req : list name) (d : dag) (o2 : opnode) : option opnode :=
+  match prim o2, ins o2, outs o2 with
+  | Some p2, [a], [_] =>
+      if mem_nat a req then None
+      else if negb (Nat.eqb (out_degree_multi d a) 1) then None
+      else match producers d a with
+           | [o1] =>
+               match prim o1, outs o1 with
+               | Some p1, [_] => if can_fuse_primitive_ops p1 p2 then Some o1 else None
+               | _, _ => None
+               end
+           | _ => None
+           end
+  | _, _, _ => None
+  end.
+
+(* fuse(primitive_op1, primitive_op2) *)
+Definition legacy_fuse (p1 p2 : primop) : primop :=
+  {| bw := true; fpred := true; fsucc := true; ntasks := ntasks p2;
+     proj := legacy_fused_projected (proj p1) (proj p2);
+     allowed := allowed p2; reserved := reserved p2;
+     nib := legacy_num_input_blocks (nib p1) (nib p2);
+     chunkmem := chunkmem p2; srcs := srcs p1;
+     kf := fun k => match legacy_fused_kf (kf p1) (kf p2) k with Some fa => fa | None => (fst k, []) end;
+     fn := legacy_fused_fun B (fn p1) (fn p2) |}.
+
+Definition simple_fuse_step (req : list name) (d : dag) (n : nat) : dag :=
+  match find_op d n with
+  | None => d
+  | Some o2 =>
+    match simple_can_fuse req d o2, prim o2 with
+    | Some o1, Some p2 =>
+      match prim o1 with
+      | Some p1 =>
+        let o2' := {| oid := oid o2; ins := nodup_n (ins o1); outs := outs o2; prim := Some (legacy_fuse p1 p2) |} in
+        {| dops := map (fun x => if Nat.eqb (oid x) (oid o2) then o2' else x)
+                       (filter (fun x => negb (Nat.eqb (oid x) (oid o1))) (dops d));
+           virtuals := virtuals d |}
+      | None => d
+      end
+    | _, _ => d
+    end
+  end.
+Definition simple_optimize (req : list name) (order : list nat) (d : dag) : dag :=
+  fold_left (simple_fuse_step req) order d.
+
 (* ---- semantics: run the ops in list order, each writing its output arrays ----------- *)
 Definition env := key -> B.
 Definition exec_op (e : env) (o : opnode) : env :=
